@@ -2,7 +2,7 @@
 
 ID = 'C19'
 FILES = ['prysm/x/raytracing/spencer_and_murty.py', 'prysm/x/raytracing/surfaces.py', 'prysm/coordinates.py']
-FUNCTIONS = ['spencer_and_murty.refract/reflect/transform_to_local_coords/transform_to_global_coords/_multi_dot',
+FUNCTIONS = ['spencer_and_murty.raytrace/intersect/newton_raphson_solve_s (planes)', 'spencer_and_murty.refract/reflect/transform_to_local_coords/transform_to_global_coords/_multi_dot',
              'surfaces.Surface.conic/sphere/plane .sag_normal', 'surfaces.surface_normal_from_cylindrical_derivatives',
              'surfaces.conic_sag/conic_sag_der/phi_spheroid', 'coordinates.make_rotation_matrix/cart_to_polar']
 STUBS = ['np.sqrt -> sqrt atoms', 'np.arctan2 -> angle atom', 'np.cos/np.sin of rotation angles -> phasors', 'np.einsum/matmul on exact object arrays']
@@ -11,16 +11,19 @@ EXPLANATION = ('Ray directions are unit vectors given by a rational (stereograph
                'reflected directions have unit length, reflection mirrors about the normalised gradient, refraction satisfies n (S x N) = n\' (S\' x N) '
                'and S\' lies in the plane of incidence; the normal is the true gradient of the sag (engine derivative); the normal is finite on axis; '
                'frame transforms are exact rigid motions.')
-BOUNDS = {'quick': 'single rays and batches of 2 rays; conic / sphere / plane surfaces; rotation matrices from three symbolic Euler angles',
-          'thorough': 'same, batches of 3 rays, off-axis points given as arrays'}
+BOUNDS = {'quick': 'single rays and batches of 2 rays; conic / sphere / plane surfaces; rotation matrices from three symbolic Euler angles; '
+                   'raytrace through 6 prescriptions of 2-3 tilted/decentred planes (mirror, refracting, non-bending; symbolic tilt, decentre, spacing, ray)',
+          'thorough': 'same, 10 prescriptions'}
 OUTSIDE = ('that the Newton-Raphson loop converges onto the surface (float-tolerance termination after a data-dependent number of iterations: no '
-           'bounded unrolling is meaningful for symbolic rays), multi-surface prescriptions, off-axis conics and Q-type surfaces (C09 covers their derivatives in part)')
+           'bounded unrolling is meaningful for symbolic rays; for planes the first step is exact and the traced prescriptions use planes only), multi-surface '
+           'prescriptions with curved surfaces, off-axis conics and Q-type surfaces (C09 covers their derivatives in part), rays travelling towards -z')
 NDERIVED = 60
 MAX_PATHS = 16
 CFG_TIMEOUT = {'quick': 900, 'thorough': 3600}
 
 
 def configs(tier):
+    q = tier == 'quick'
     out = [{'name': 'refract-gradient-normal', 'kind': 'refract', 'normal': 'gradient'},
            {'name': 'refract-unit-normal', 'kind': 'refract', 'normal': 'unit'},
            {'name': 'reflect-gradient-normal', 'kind': 'reflect'},
@@ -32,6 +35,12 @@ def configs(tier):
            {'name': 'surface-then-refract', 'kind': 'surf_refract'},
            {'name': 'surface-then-reflect', 'kind': 'surf_reflect'},
            {'name': 'frames', 'kind': 'frames'}, {'name': 'rotation-matrix', 'kind': 'rotmat'}]
+    # multi-surface prescriptions of tilted / decentred planes (the ray-plane intersection is exact after one Newton step): every mix of
+    # tilted (T) and untilted (U) surfaces, reflecting (m), refracting (r) and non-bending (e)
+    seqs = ['Tm,Ue', 'Ue,Tm', 'Tm,Um', 'Ur,Tm,Ue', 'Te,Ur', 'Tr,Ue'] if q else \
+        ['Tm,Ue', 'Ue,Tm', 'Tm,Um', 'Ur,Tm,Ue', 'Te,Ur', 'Tr,Ue', 'Tm,Tm,Ue', 'Ue,Ue,Tm', 'Tr,Ur,Ue', 'Um,Tm,Um']
+    for sq in seqs:
+        out.append({'name': 'trace-planes-' + sq.replace(',', '-'), 'kind': 'trace', 'seq': sq})
     return out
 
 
@@ -43,6 +52,12 @@ def params(cfg):
         return [('x', {'gt': 0, 'lt': 1}), ('y', {'gt': 0, 'lt': 1}), ('c', {'gt': 0, 'lt': 0.3}), ('k', {'gt': -2, 'lt': 0.5})]
     if k in ('surf_refract', 'surf_reflect'):
         return [('a', {}), ('b', {}), ('x', {'gt': 0, 'lt': 1}), ('y', {'gt': 0, 'lt': 1}), ('c', {'gt': 0, 'lt': 0.3}), ('n', {'lo': 1}), ('np_', {'lo': 1})]
+    if k == 'trace':
+        ns = len(cfg['seq'].split(','))
+        ps = [('a', {'gt': -0.3, 'lt': 0.3}), ('b', {'gt': -0.3, 'lt': 0.3}), ('px', {}), ('py', {}), ('n1', {'lo': 1, 'hi': 2})]
+        for j in range(ns):
+            ps += [('t%d' % j, {'gt': -0.2, 'lt': 0.2}), ('dy%d' % j, {}), ('z%d' % j, {'gt': 1 + 2 * j, 'lt': 2 + 2 * j})]
+        return ps
     if k in ('frames', 'rotmat'):
         return [('al', {}), ('be', {}), ('ga', {}), ('px', {}), ('py', {}), ('pz', {})]
     return []
@@ -176,6 +191,43 @@ def run(cfg, H):
         else:
             out = sm.reflect(Sarr, der)
             check_reflection(H, S, r, [out[0, i] for i in range(3)], 'reflection at a sphere with the normal from sag_normal')
+    elif k == 'trace':
+        sf = H.mod('prysm.x.raytracing.surfaces')
+        a, b = H.param('a'), H.param('b')
+        S0 = unit_vector(H, a, b)
+        P0 = [H.param('px'), H.param('py'), 0 * a]
+        n1 = H.param('n1')
+        surfs, normals, origins, kinds = [], [], [], []
+        for j, code in enumerate(cfg['seq'].split(',')):
+            tilted, typ = code[0] == 'T', {'m': 'refl', 'r': 'refr', 'e': 'eval'}[code[1]]
+            t = H.param('t%d' % j)
+            cs, sn = (1 - t * t) / (1 + t * t), 2 * t / (1 + t * t)          # rotation about x by the angle with tan(angle/2) = t
+            R = H.asarray([[1 + 0 * t, 0 * t, 0 * t], [0 * t, cs, -sn], [0 * t, sn, cs]]) if tilted else None
+            Pj = [0 * t, H.param('dy%d' % j), H.param('z%d' % j)]
+            surfs.append(sf.Surface.plane(typ, H.asarray(Pj), n=(lambda wvl: n1) if typ == 'refr' else None, R=R))
+            # the surface normal in global coordinates: R maps global to local, the local normal is z
+            normals.append([0 * t, sn, cs] if tilted else [0 * t, 0 * t, 1 + 0 * t])
+            origins.append(Pj)
+            kinds.append(typ)
+        Ph, Sh = sm.raytrace(surfs, H.asarray(P0), H.asarray(S0), H.frac(1, 2))
+        H.shape_is('position history shape', Ph, (len(surfs) + 1, 3))
+        nprev = 1
+        for j in range(len(surfs)):
+            Pp = [Ph[j, i] for i in range(3)]
+            Pn = [Ph[j + 1, i] for i in range(3)]
+            Sp = [Sh[j, i] for i in range(3)]
+            Sn_ = [Sh[j + 1, i] for i in range(3)]
+            N = normals[j]
+            d = [Pn[i] - Pp[i] for i in range(3)]
+            H.eq('surface %d: the hit point lies on the incoming ray' % j, H.asarray(cross(d, Sp)), H.asarray([0, 0, 0]))
+            H.eq('surface %d: the hit point lies on the surface' % j, dot([Pn[i] - origins[j][i] for i in range(3)], N), 0)
+            if kinds[j] == 'refl':
+                check_reflection(H, Sp, N, Sn_, 'surface %d (mirror)' % j)
+            elif kinds[j] == 'refr':
+                check_refraction(H, Sp, N, nprev, n1, Sn_, 'surface %d (refraction)' % j)
+                nprev = n1
+            else:
+                H.eq('surface %d does not bend the ray' % j, H.asarray(Sn_), H.asarray(Sp))
     elif k in ('frames', 'rotmat'):
         co = H.mod('prysm.coordinates')
         al, be, ga = H.param('al'), H.param('be'), H.param('ga')
